@@ -121,6 +121,17 @@ def targeted_programs(dev):
     h["ops"] = [{"op": "enter"}, some[1], some[6], some[0], some[3], {"op": "save", "pre": "same-lf"}, {"op": "save", "pre": "same-cr", "pathkind": "path"},
                 some[2], {"op": "exit", "pre": "same-lf"}]
     progs.append(h)
+    # the caller edits the record list with the list's own operations before it saves or prints it
+    h = _hdr("files/edited-by-hand", dev)
+    ED = lambda kind, **kw: dict({"op": "listedit", "kind": kind}, **kw)  # noqa
+    h["ops"] = [{"op": "enter"}, some[1], some[6], some[0], some[3], some[4], {"op": "save", "pre": "absent"},
+                ED("pop"), {"op": "str"}, {"op": "save", "pre": "longer"},
+                ED("insert", i=1, text="C;inserted by hand \u00b5"), {"op": "str"}, {"op": "save"},
+                ED("setitem", i=0, text="C;first record replaced"), ED("pop0"), {"op": "save", "pre": "shorter"}, {"op": "str"},
+                some[2], ED("reverse"), {"op": "str"}, {"op": "save", "pathkind": "path"},
+                ED("delslice", i=1, j=3), {"op": "str"}, some[5], ED("insert", i=0, text="B;"), {"op": "exit", "pre": "longer"},
+                ED("delslice", i=0, j=50), {"op": "str"}, {"op": "exit", "pre": "longer"}]
+    progs.append(h)
     # a worklist without a path: leaving the block writes nothing
     h = _hdr("files/nopath", dev, file=False)
     h["ops"] = [{"op": "enter"}, some[1], {"op": "exit"}, {"op": "str"}, {"op": "save"}]
